@@ -417,4 +417,61 @@ example : (wireFencing .repaired { wfEx with jumps := [{ idx := 2, kick := 7, ba
     (fun o => (o.returnedOld, o.oldRewritten, o.path, o.status)) = some (true, true, [-1, 1, 2, 1, -1], .NSG) := by
   rw [wfEx_reject_eval]; rfl
 
+/-! ### run_md for two-ensemble moves (zero swaps): commit iff the MOVE status is ACC -/
+
+/-- **`run_md` commits iff the move status is `ACC`.** For any result `r` of a two-ensemble move, both
+    `picked[i]["traj"]` are replaced (by the two trial paths) exactly when `r.status = ACC` — whatever the
+    trial paths' own `.status` attributes (`r.st0`, `r.st1`) say. -/
+theorem run_md_commits_iff_acc (r : ZeroSwap.Result) (old0 old1 : List ZeroSwap.Frame) :
+    ((runMdCommit2 r old0 old1).replaced0 = true ↔ r.status = .ACC) ∧
+    ((runMdCommit2 r old0 old1).replaced1 = true ↔ r.status = .ACC) ∧
+    (r.status = .ACC → (runMdCommit2 r old0 old1).live0 = r.path0 ∧ (runMdCommit2 r old0 old1).live1 = r.path1) ∧
+    (runMdCommit2 r old0 old1).status = r.status := by
+  unfold runMdCommit2
+  refine ⟨by simp, by simp, ?_, rfl⟩
+  intro h
+  simp [h]
+
+/-- **Rejections change nothing (two-ensemble moves).** After a QuanTIS or plain zero swap whose status is
+    not `ACC`, both ensembles hold exactly their old frames and neither path was replaced — in particular
+    when the first leg succeeded (`st0 = ACC`) and only the second failed (FTX / FTS / 0+R). -/
+theorem run_md_rejection_changes_nothing (e0 e1 : ZeroSwap.Ens) (old0 old1 : List ZeroSwap.Frame)
+    (scA scB scC scD : ZeroSwap.Script) (aa : Bool) (beta0 beta1 xi p : Rat) (o : Md2Out) :
+    (runMdQuantis e0 e1 old0 old1 scA scB scC scD aa beta0 beta1 xi p = .ok o → o.status ≠ .ACC →
+      o.live0 = old0 ∧ o.live1 = old1 ∧ o.replaced0 = false ∧ o.replaced1 = false) ∧
+    (runMdRetisSwap e0 e1 old0 old1 scC scD xi = .ok o → o.status ≠ .ACC →
+      o.live0 = old0 ∧ o.live1 = old1 ∧ o.replaced0 = false ∧ o.replaced1 = false) := by
+  constructor
+  · intro h hs
+    unfold runMdQuantis at h
+    split at h
+    · cases h
+    · simp only [Except.ok.injEq] at h
+      subst h
+      simp only [runMdCommit2] at hs ⊢
+      simp [hs]
+  · intro h hs
+    unfold runMdRetisSwap at h
+    split at h
+    · cases h
+    · simp only [Except.ok.injEq] at h
+      subst h
+      simp only [runMdCommit2] at hs ⊢
+      simp [hs]
+
+/-- the seeded scenario: the second leg of a QuanTIS swap fails with FTX while the new [0-] trial carries
+    `.status = ACC`; `run_md` keeps both old paths -/
+example : (ZeroSwap.quantisSwapZero QEx.e0 QEx.e1 QEx.old0 QEx.old1 QEx.scA QEx.scB QEx.bw QEx.fwLong true 1 1 0 1).toOption.map
+      (fun r => (r.status, r.st0)) = some (.FTX, .ACC) ∧
+    (runMdQuantis QEx.e0 QEx.e1 QEx.old0 QEx.old1 QEx.scA QEx.scB QEx.bw QEx.fwLong true 1 1 0 1).toOption =
+      some { status := .FTX, live0 := QEx.old0, live1 := QEx.old1, replaced0 := false, replaced1 := false } := by
+  refine ⟨?_, QEx.md_eval⟩
+  have h := QEx.swap_eval
+  cases hs : ZeroSwap.quantisSwapZero QEx.e0 QEx.e1 QEx.old0 QEx.old1 QEx.scA QEx.scB QEx.bw QEx.fwLong true 1 1 0 1 with
+  | error e => rw [hs] at h; cases h
+  | ok r =>
+    rw [hs] at h
+    simp only [Except.toOption, Option.map_some, Option.some.injEq, Prod.mk.injEq] at h ⊢
+    exact ⟨h.2.1, h.2.2.1⟩
+
 end Infretis.C09
